@@ -508,10 +508,12 @@ def process_info(group, name, state, now):
             'process_index': 0, 'has_stdout': True, 'has_stderr': False}
 
 
-def loss_scenario(state_name, master, loss, verbose=False):
+def loss_scenario(state_name, role, loss, verbose=False):
     """ Real FiniteStateMachine forced into a working state; instances 1 (local), 2, 3 RUNNING; process `solo` of the
-    managed application `app` runs only on instance 3 (RESTART_PROCESS). Instance 3 is declared FAILED (if `loss`)
-    and the FSM is evaluated once. Returns the failure handler calls seen during that evaluation. """
+    managed application `app` runs only on instance 3 (RESTART_PROCESS). role: 'master' (local is the Master),
+    'slave' (instance 2 is), 'next' (instance 3 is: the Master is lost with the process and the local instance is
+    elected next; peer 2's published views are scripted to follow). Instance 3 is declared FAILED (if `loss`) and the
+    FSM is evaluated 8 times. Returns (calls to the failure handler / commanders, local instance is Master at the end). """
     from supvisors.statemachine import FiniteStateMachine
     from supvisors.ttypes import (SupvisorsStates, SupvisorsInstanceStates, ConciliationStrategies,
                                   RunningFailureStrategies)
@@ -522,24 +524,27 @@ def loss_scenario(state_name, master, loss, verbose=False):
     ctx = supv.context
     calls = []
     supv.failure_handler.add_default_job = lambda p: calls.append(('add_default_job', p.namespec))
-    supv.failure_handler.trigger_jobs = lambda: calls.append(('trigger_jobs',))
-    supv.starter.in_progress = lambda: state_name == 'DISTRIBUTION'
+    supv.failure_handler.trigger_jobs = lambda: None
+    supv.starter.in_progress = lambda: state_name == 'DISTRIBUTION' and role != 'next'
     supv.stopper.in_progress = lambda: False
     supv.starter.on_instances_invalidation = lambda lost, procs: calls.append(
         ('on_instances_invalidation', list(lost), sorted(p.namespec for p in procs)))
     supv.stopper.on_instances_invalidation = lambda lost, procs: None
+    supv.starter.start_applications = lambda *a, **k: calls.append(('start_applications',))
     svenv.CLOCK.now = 1000
     fsm = supv.fsm = FiniteStateMachine(supv)
+    running, stopped = SupvisorsInstanceStates.RUNNING, SupvisorsInstanceStates.STOPPED
     for i in range(1, 7):
-        ctx.instances[ident(i)]._state = (SupvisorsInstanceStates.RUNNING if i <= 3
-                                          else SupvisorsInstanceStates.STOPPED)
+        ctx.instances[ident(i)]._state = running if i <= 3 else stopped
     sm = supv.state_modes
-    master_id = ident(1) if master else ident(2)
+    master_id = ident({'master': 1, 'slave': 2, 'next': 3}[role])
     state = SupvisorsStates[state_name]
     sm.master_identifier = master_id
     for i in (1, 2, 3):
-        sm.instance_state_modes[ident(i)].master_identifier = master_id
-        sm.instance_state_modes[ident(i)].state = state
+        ism = sm.instance_state_modes[ident(i)]
+        ism.master_identifier = master_id
+        ism.state = state
+        ism.instance_states = {ident(j): (running if j <= 3 else stopped) for j in range(1, 7)}
     # a conflict on `dup` keeps a Master in CONCILIATION (USER strategy: nothing is stopped)
     layout = [(1, 'dup'), (3, 'solo')] + ([(2, 'dup')] if state_name == 'CONCILIATION' else [])
     for i, name in layout:
@@ -551,40 +556,51 @@ def loss_scenario(state_name, master, loss, verbose=False):
     fsm.instance = fsm._StateInstances[state](supv)
     if loss:
         ctx.on_instance_failure(ctx.instances[ident(3)])
-    before = fsm.state.name
-    fsm.next()
-    if verbose:
-        print(f'  state {before} -> {fsm.state.name}; is_master={sm.is_master()}; instance 3 is '
-              f'{ctx.instances[ident(3)].state.name}; app:solo state={solo.state} running on '
-              f'{sorted(solo.running_identifiers)}')
-        print(f'  calls during the evaluation: {calls}')
-        calls2 = list(calls)
+    all_calls = []
+    for k in range(8):
+        svenv.CLOCK.now += 5
+        ism2 = sm.instance_state_modes[ident(2)]   # peer 2 sees what we see and follows
+        ism2.instance_states[ident(3)] = ctx.instances[ident(3)].state
+        if role == 'next':
+            ism2.master_identifier = sm.master_identifier
+            ism2.state = fsm.state
+        fsm.next()
+        if verbose:
+            print(f'  evaluation {k}: state={fsm.state.name} master={sm.master_identifier!r} is_master={sm.is_master()}'
+                  f' instance 3 is {ctx.instances[ident(3)].state.name} app:solo state={solo.state} calls={calls}')
+        all_calls += calls
         del calls[:]
-        for _ in range(3):
-            fsm.next()
-        print(f'  three more evaluations: state {fsm.state.name}; calls: {calls}')
-        return calls2
-    return calls
+    return all_calls, bool(sm.is_master())
 
 
 class FeedSuite(Suite):
-    """ loss path: 3 working states x Master/slave x loss/no loss, on the real FiniteStateMachine.next() """
+    """ loss path: 3 working states x {Master, slave, slave whose Master is the lost instance} x loss/no loss, on the
+    real FiniteStateMachine.next() (8 evaluations) """
     name = 'feed_loss'
     prelude = 'From Sup Require Import FailureHandler.\nOpen Scope Z_scope.'
     case_type = 'wcase'
-    evals = {'mismatches': 'wmismatches', 'spec_violations': 'wspec_violations', 'known:F8': 'wknown_f8'}
+    evals = {'mismatches': 'wmismatches', 'spec_violations': 'wspec_violations',
+             'known:F9-lost-with-master': 'wknown_f9'}
     exhaustive = True
     WS = {'DISTRIBUTION': 'WDistribution', 'OPERATION': 'WOperation', 'CONCILIATION': 'WConciliation'}
+    ROLES = {'master': 'RMaster', 'slave': 'RSlave', 'next': 'RNextMaster'}
+
+    def corpus(self):
+        # the former F8 witness (fixed in /repo 4ab9225): the Master loses an instance while in CONCILIATION
+        return [('CONCILIATION', 'master', True)]
 
     def generate(self, rng, tier):
-        return [(s, m, l) for s in self.WS for m in (True, False) for l in (True, False)]
+        return [(s, r, l) for s in self.WS for r in self.ROLES for l in (True, False)]
 
     def execute(self, case):
-        calls = loss_scenario(*case)
-        return any(c[0] == 'add_default_job' for c in calls)
+        calls, is_master = loss_scenario(*case)
+        handled = any(c[0] == 'add_default_job' for c in calls)
+        if case[1] == 'next' and case[2] and not is_master:
+            raise RuntimeError(f'scenario {case}: the local instance was not elected')
+        return handled
 
     def emit(self, case, observed):
-        return coq((C(self.WS[case[0]]), case[1], case[2], bool(observed)))
+        return coq((C(self.WS[case[0]]), C(self.ROLES[case[1]]), case[2], bool(observed)))
 
     def describe(self, case, observed):
         return {'case': list(case), 'observed': observed}
@@ -600,22 +616,25 @@ class FeedSuite(Suite):
 
 
 class CrashFeedSuite(Suite):
-    """ crash path: FiniteStateMachine.on_process_state_event, 6 strategies x Master x crashed x forced """
+    """ crash path: FiniteStateMachine.on_process_state_event, 6 strategies x Master x crashed x forced x
+    {Master in OPERATION, Master in ELECTION}; on_restart / on_shutdown / set_state are the real ones """
     name = 'feed_crash'
     prelude = 'From Sup Require Import FailureHandler.\nOpen Scope Z_scope.'
     case_type = 'ccase'
-    evals = {'mismatches': 'cmismatches', 'spec_violations': 'cspec_violations'}
+    evals = {'mismatches': 'cmismatches', 'spec_violations': 'cspec_violations',
+             'known:F10-election-restart-dropped': 'cknown_f10'}
     exhaustive = True
 
     def generate(self, rng, tier):
-        return [(s, m, c, f) for s in RF_NAMES for m in (True, False) for c in (True, False) for f in (True, False)]
+        return [(s, m, c, f, e) for s in RF_NAMES for m in (True, False) for c in (True, False)
+                for f in (True, False) for e in (False, True)]
 
     def execute(self, case):
         from supvisors.statemachine import FiniteStateMachine
         from supvisors.process import ProcessStatus, ProcessRules
-        from supvisors.ttypes import RunningFailureStrategies
+        from supvisors.ttypes import RunningFailureStrategies, SupvisorsStates
         from supervisor.states import ProcessStates
-        strat, master, crashed, forced = case
+        strat, master, crashed, forced, election = case
         ensure_clock()
         supv = svenv.make_supvisors()
         calls = []
@@ -624,8 +643,22 @@ class CrashFeedSuite(Suite):
         supv.starter.on_event = lambda *a: None
         supv.stopper.on_event = lambda *a: None
         fsm = FiniteStateMachine(supv)
-        fsm.on_restart = lambda: calls.append('on_restart')
-        fsm.on_shutdown = lambda: calls.append('on_shutdown')
+        real_restart, real_shutdown = fsm.on_restart, fsm.on_shutdown
+
+        def on_restart():
+            calls.append('on_restart')
+            real_restart()
+
+        def on_shutdown():
+            calls.append('on_shutdown')
+            real_shutdown()
+        fsm.on_restart, fsm.on_shutdown = on_restart, on_shutdown
+        visited = []
+
+        class Logging(dict):
+            def __getitem__(self, key):
+                visited.append(key)
+                return dict.__getitem__(self, key)
         rules = ProcessRules(supv)
         rules.running_failure_strategy = RunningFailureStrategies[strat]
         process = ProcessStatus('app', 'proc', rules, supv)
@@ -634,13 +667,20 @@ class CrashFeedSuite(Suite):
         process.forced_state = ProcessStates.FATAL if forced else None
         supv.context.on_process_state_event = lambda status, event: process
         supv.state_modes.master_identifier = ident(1) if master else ident(2)
+        start = SupvisorsStates.ELECTION if election else SupvisorsStates.OPERATION
+        supv.state_modes.state = start
+        fsm.instance = fsm._StateInstances[start](supv)
+        fsm._StateInstances = Logging(FiniteStateMachine._StateInstances)
         status = supv.context.instances[ident(2)]
         fsm.on_process_state_event(status, {})
         ending = 1 if 'on_restart' in calls else 2 if 'on_shutdown' in calls else 0
-        return ('add_default_job' in calls and 'trigger_jobs' in calls, ending)
+        entered = (SupvisorsStates.RESTARTING in visited) if ending == 1 else \
+                  (SupvisorsStates.SHUTTING_DOWN in visited) if ending == 2 else False
+        return ('add_default_job' in calls and 'trigger_jobs' in calls, ending, bool(entered))
 
     def emit(self, case, observed):
-        return coq((C(RF[case[0]]), case[1], case[2], case[3], (bool(observed[0]), observed[1])))
+        return coq((C(RF[case[0]]), case[1], case[2], case[3], case[4],
+                    (bool(observed[0]), observed[1], bool(observed[2]))))
 
     def describe(self, case, observed):
         return {'case': list(case), 'observed': list(observed)}
@@ -652,74 +692,29 @@ class CrashFeedSuite(Suite):
         return repr(case)
 
     def distribution(self, inputs, observeds):
-        return {'handled': sum(1 for o in observeds if o[0]), 'endings': sum(1 for o in observeds if o[1]),
-                'cases': len(inputs)}
+        return {'handled': sum(1 for o in observeds if o[0]), 'endings_requested': sum(1 for o in observeds if o[1]),
+                'endings_entered': sum(1 for o in observeds if o[2]), 'cases': len(inputs)}
 
 
 def replay_f8():
-    print('F8 replay on the real FiniteStateMachine (supvisors/statemachine.py)')
+    print('former F8 witness (fixed in /repo 4ab9225) on the real FiniteStateMachine')
     print('control: Master in OPERATION, instance 3 (hosting app:solo, RESTART_PROCESS) is lost')
-    c1 = loss_scenario('OPERATION', True, True, verbose=True)
+    c1, _ = loss_scenario('OPERATION', 'master', True, verbose=True)
     print('test: Master in CONCILIATION (conflict on app:dup, USER strategy), same loss')
-    c2 = loss_scenario('CONCILIATION', True, True, verbose=True)
+    c2, _ = loss_scenario('CONCILIATION', 'master', True, verbose=True)
     ok1 = any(c[0] == 'add_default_job' for c in c1)
     ok2 = any(c[0] == 'add_default_job' for c in c2)
     print(f'add_default_job called: OPERATION={ok1} CONCILIATION={ok2}')
-    print('F8 CONFIRMED' if ok1 and not ok2 else 'F8 NOT reproduced')
+    print('F8 still present' if ok1 and not ok2 else 'F8 not present: the loss is handled in CONCILIATION too')
 
 
 def replay_f9():
     """ node-level replay (peer 2's published views are scripted): the Master (instance 3) is lost together with
     app:solo (RESTART_PROCESS) that ran only there; the local instance becomes the new Master """
-    from supvisors.statemachine import FiniteStateMachine
-    from supvisors.ttypes import SupvisorsStates, SupvisorsInstanceStates, RunningFailureStrategies
-    ensure_clock()
-    supv = svenv.make_supvisors()
-    supv.parser = None
-    ctx = supv.context
-    calls = []
-    supv.failure_handler.add_default_job = lambda p: calls.append(('add_default_job', p.namespec))
-    supv.failure_handler.trigger_jobs = lambda: None
-    supv.starter.in_progress = lambda: False
-    supv.stopper.in_progress = lambda: False
-    supv.starter.on_instances_invalidation = lambda lost, procs: calls.append(
-        ('on_instances_invalidation', list(lost), sorted(p.namespec for p in procs)))
-    supv.stopper.on_instances_invalidation = lambda lost, procs: None
-    supv.starter.start_applications = lambda *a, **k: calls.append(('start_applications',))
-    svenv.CLOCK.now = 1000
-    fsm = supv.fsm = FiniteStateMachine(supv)
-    running = SupvisorsInstanceStates.RUNNING
-    for i in range(1, 7):
-        ctx.instances[ident(i)]._state = running if i <= 3 else SupvisorsInstanceStates.STOPPED
-    sm = supv.state_modes
-    state = SupvisorsStates.OPERATION
-    sm.master_identifier = ident(3)
-    for i in (1, 2, 3):
-        ism = sm.instance_state_modes[ident(i)]
-        ism.master_identifier = ident(3)
-        ism.state = state
-        ism.instance_states = {ident(j): (running if j <= 3 else SupvisorsInstanceStates.STOPPED) for j in range(1, 7)}
-    ctx.load_processes(ctx.instances[ident(3)], [process_info('app', 'solo', 20, 990)], check_state=False)
-    ctx.load_processes(ctx.instances[ident(1)], [process_info('app', 'other', 20, 990)], check_state=False)
-    ctx.applications['app'].rules.managed = True
-    solo = ctx.applications['app'].processes['solo']
-    solo.rules.running_failure_strategy = RunningFailureStrategies.RESTART_PROCESS
-    sm.state = state
-    fsm.instance = fsm._StateInstances[state](supv)
-    print(f'F9 replay: local=1 in {fsm.state.name}, Master=3 hosts app:solo (RESTART_PROCESS); instance 3 is lost')
-    ctx.on_instance_failure(ctx.instances[ident(3)])
-    seen = False
-    for k in range(8):
-        svenv.CLOCK.now += 5
-        ism2 = sm.instance_state_modes[ident(2)]   # peer 2 lost 3 as well and follows
-        ism2.instance_states[ident(3)] = ctx.instances[ident(3)].state
-        ism2.master_identifier = sm.master_identifier
-        ism2.state = fsm.state
-        fsm.next()
-        seen = seen or any(c[0] == 'add_default_job' for c in calls)
-        print(f'  evaluation {k}: state={fsm.state.name} master={sm.master_identifier!r} is_master={sm.is_master()} '
-              f'app:solo state={solo.state} calls={calls}')
-        del calls[:]
+    print('F9 replay: local=1 in OPERATION, Master=3 hosts app:solo (RESTART_PROCESS); instance 3 is lost')
+    calls, is_master = loss_scenario('OPERATION', 'next', True, verbose=True)
+    seen = any(c[0] == 'add_default_job' for c in calls)
+    print(f'local instance is the Master at the end: {is_master}')
     print('F9 CONFIRMED (node level): the new Master never hands app:solo to the failure handler' if not seen
           else 'F9 NOT reproduced')
 
